@@ -9,6 +9,7 @@ from ..core import Obligation, DISCHARGED, VIOLATION, ALLOWED, NOTE, load_table
 from ..facts import walk, strip_targs
 from ..dropped import CanFail, find_sites, cannot_fail_with_const_arg
 from ..dispatch_check import run_families
+from ..substrate import AnalysisBroken
 from .C02 import _find_call
 from .C08 import clamp_verified
 
